@@ -460,6 +460,61 @@ def rule_s4(ctx, F):
         ], accept_desc="returning a field")
 
 
+def rule_s8(ctx, F):
+    """S8: a field lookup answers only from map entries of the requested field.  The entries of a production are
+    sorted by field id; ts_node_child_by_field_id narrows [field_map, field_map_end) from both sides and then
+    walks it with `field_map++`.  Every read of an entry's child_index / inherited flag must be below an
+    established lower bound (`field_map->field_id < field_id` false — later entries are larger still) and an
+    established upper bound: either the end of the range was trimmed (`field_map_end[-1].field_id > field_id`
+    false, end not moved since) or the entry itself was compared since the last `field_map++`."""
+    from flow import GateMonitor, Search
+    fn = ctx.need_fn(F, "ts_node_child_by_field_id", "S8")
+    if not fn:
+        return
+    fm = fn.ids_named("field_map")
+    fid = [p["id"] for p in fn.params if p["name"] == "field_id"] or fn.ids_named("field_id")
+    if not fm or not fid:
+        ctx.bad("S8", "ts_node_child_by_field_id:entry-reads", "ts_node_child_by_field_id no longer has `field_map` / `field_id`")
+        return
+    reads = []
+    for pt, e in fn.points():
+        for n in own_walk(e):
+            if n.get("k") == "mem" and n.get("f") in ("child_index", "inherited") and strip(n["b"]).get("k") == "ref" and strip(n["b"]).get("id") in fm:
+                reads.append(pt)
+    reads = sorted(set(reads))
+    ctx.floor("reads of a field-map entry in ts_node_child_by_field_id", len(reads), 2)
+    if not reads:
+        return
+    ctx.gate("S8", fn, reads, [("no entry of a larger field is consulted",
+                               [("field_map_end[-1].field_id > field_id", False), ("field_map_end[-1].field_id <= field_id", True), ("field_map_end[-1].field_id == field_id", True),
+                                ("field_map->field_id == field_id", True), ("field_map->field_id != field_id", False), ("field_map->field_id > field_id", False)])],
+             accept_desc="reading a field-map entry")
+
+    class Lower(GateMonitor):
+        # the lower bound survives `field_map++` (the entries are sorted), not a fresh range from ts_language_field_map
+        def elem(self, m, pt, e, s):
+            for n in own_walk(e):
+                if n.get("k") == "call":
+                    for a in n.get("a", []):
+                        a = strip(a)
+                        if a.get("k") == "un" and a.get("op") == "&" and strip(a["e"]).get("k") == "ref" and strip(a["e"]).get("id") in fm:
+                            m = 0
+                if n.get("k") == "assign" and strip(n["l"]).get("k") == "ref" and strip(n["l"]).get("id") in fm:
+                    m = 0
+            return GateMonitor.elem(self, m, pt, e, s)
+    mon = Lower(reads, [("field_map->field_id < field_id", False), ("field_map->field_id >= field_id", True), ("field_map->field_id == field_id", True), ("field_map->field_id != field_id", False)],
+                None, (), kill_fn=lambda src: set(fid))
+    mon.label = "no entry of a smaller field is consulted"
+    sr = Search(fn, mon)
+    v = sr.run(0)
+    key = "ts_node_child_by_field_id:no entry of a smaller field is consulted"
+    if v is None:
+        ctx.ok("S8", key, "every path to a read of field_map->child_index/inherited passed `field_map->field_id < field_id` = false after the range was fetched (%d reads)" % len(reads),
+               sample={"reads": [fn.loc(p) for p in reads][:4]})
+    else:
+        ctx.bad("S8", key, "ts_node_child_by_field_id reads a field-map entry at %s without having skipped the entries of smaller fields" % fn.loc(v.pt), {"path": sr.render_path(v.path)[-6:]})
+
+
 def run(ctx):
     for cfg in configs(ctx):
         ctx.config = cfg
@@ -474,6 +529,7 @@ def run(ctx):
         rule_s5(ctx, F)
         rule_s6(ctx, F)
         rule_s7(ctx, F)
+        rule_s8(ctx, F)
         rule_v1(ctx, F)
     return ctx.finish(
         "Sibling-agreement (CFG isomorphism under substitution), field-coverage and index-width rules over node.c / tree_cursor.c: byte- and point-range "
